@@ -207,6 +207,16 @@ def gen_lsscript_case(rng):
     dphi0 = rng.choice([-1.0, -1.0, -0.5, -4.0, -0.125, -1.0, 0.0, 1.0]) if rng.random() < 0.3 else -1.0
     vals = [0.0]
     script = []
+    if dphi0 < 0 and rng.random() < 0.35:
+        # expansion prefix: Armijo holds, slope still steep -> the step is doubled (alpha0 > 0 afterwards); then
+        # often a non-finite answer, so that backtracking starts from alpha0 != 0
+        a = 1.0
+        for _ in range(rng.randint(1, 3)):
+            script.append([dphi0 * a, 2.0 * dphi0])
+            vals.append(dphi0 * a)
+            a *= 2
+        if rng.random() < 0.6:
+            script.append([rng.choice(["fpe", float("nan"), float("inf"), 1e200]), 0.0])
     for _ in range(rng.randint(1, 9)):
         r = rng.random()
         if r < 0.07:
